@@ -724,6 +724,10 @@ func runC08(r *hx.Run) error {
 		// prompt: the bytes after ESC are already there or arrive with the next read, no pause
 		{d("\x1b[A")}, {d("\x1b"), d("[A")}, {d("\x1b"), d("a")}, {d("\x1b"), d("\x7f")}, {d("\x1b"), d("\x1b"), d("[A")}, {d("a\x1b"), d("Ob")},
 		{d("\x1b]0;t\x1b"), d("\\")}, {d("\x1b"), d("\\")}, {d("\x1b"), d("O"), d("P")},
+		// round 3 (F102c repaired): a C0 control executed in the escape state — the read that returns it stops the
+		// timer, so the pause that follows is not an Escape key; the ST of a string stays suppressed across it
+		{d("\x1b]0;t\x1b\n"), p, d("\\")}, {d("\x1b]0;t\x1b"), p, d("\n\\")}, {d("\x1b\n"), p, d("\\")}, {d("\x1b"), d("\n"), p, d("[A")},
+		{d("\x1bP1$r\x1b\x00"), p, d("\\x")}, {d("\x1b_a\x1b\r"), p, d("\x1b"), p}, {d("\x1bXs\x1b"), d("\x1f"), p, d("\\"), p},
 	}
 	reps := 2
 	if r.Thorough {
@@ -782,6 +786,10 @@ func runC08(r *hx.Run) error {
 		{[]ev{d("\x1b]0;t\x1b"), w, d("\x18"), g, d("\x1b\\")}, 'E'},
 		{[]ev{d("\x1bP1$r\x1b"), w, d("\x1a\x1b\\"), g}, 'E'},
 		{[]ev{d("x\x1b"), w, d("\x1b"), w, d("\x18"), g, d("y")}, 'E'},
+		// round 3: a C0 executed in the escape state outdates the callback as well (the read returned)
+		{[]ev{d("\x1b"), w, d("\n"), g, d("[A")}, 'E'},
+		{[]ev{d("\x1b]0;t\x1b"), w, d("\n"), g, d("\\z")}, 'E'},
+		{[]ev{d("\x1bP1$r\x1b"), w, d("\x00\\"), g}, 'E'},
 	} {
 		hooked = append(hooked, kase{s: script{evs: sh.evs, end: sh.end}, consumer: consumers[i%len(consumers)], kind: "timer-callback-delayed"})
 	}
